@@ -107,11 +107,12 @@ def write_pixels_append(ctx, prop):
         sk = [e for e in events(fa, ('continue', 'break')) if e.loops and e.loops[0] == Lout.id
               and len(e.loops) == 1]
         n = T.sub_(hi, ('phi', Lout.id, acc))
-        bad = [e for e in sk if not all(_is_emptiness_filter(norm_chunk(c), norm_chunk(n)) or
-                                        _is_emptiness_filter(norm_chunk(c), C(0)) for c, p in e.guards[-1:])]
+        bad = [e for e in sk if e.kind == 'break' or not all(
+            _is_emptiness_filter(norm_chunk(c), norm_chunk(n)) or _is_emptiness_filter(norm_chunk(c), C(0))
+            for c, p in e.guards[-1:])]
         ctx.check(not bad, R, 'no-skip', ctx.where(fa, bad[0] if bad else None),
-                  found=[f'{e.kind}@{e.line}' for e in bad], expected='no continue/break in the chunk loop',
-                  reason='a skipped chunk loses pixels')
+                  found=[f'{e.kind}@{e.line}' for e in bad], expected='no break, and no continue other than on an empty chunk, in the chunk loop',
+                  reason='a skipped chunk - or everything after an early break - loses pixels')
         # returned nnz is the running offset after the loop
         rets = returns(fa)
         okr = False
@@ -601,3 +602,80 @@ def get_binsize_all_bins(ctx):
     nones = [r for r in returns(fa) if r.value == T.NONE and any(
         c[0] == 'cmp' and T.contains(c, C(1)) and p for c, p in r.guards)]
     ctx.check(bool(nones), R, 'mixed-widths-none', ctx.where(fa), found=len(nones), expected='return None when more than one width')
+
+
+def _groupby_chain_rename(t):
+    """X.groupby(keys, sort=?).aggregate(agg).rename(columns=ren).reset_index()"""
+    if not (t[0] == 'call' and t[1][0] == 'attr' and t[1][2] == 'reset_index'):
+        return None
+    rn = t[1][1]
+    if not (rn[0] == 'call' and rn[1][0] == 'attr' and rn[1][2] == 'rename'):
+        return None
+    a = rn[1][1]
+    if not (a[0] == 'call' and a[1][0] == 'attr' and a[1][2] in ('aggregate', 'agg')):
+        return None
+    g = a[1][1]
+    if not (g[0] == 'call' and g[1][0] == 'attr' and g[1][2] == 'groupby'):
+        return None
+    return g[1][1], T.call_arg(g, 0, 'by'), T.get_kw(g, 'sort', T.TRUE), T.call_arg(a, 0, 'func'), T.get_kw(rn, 'columns')
+
+
+# ---------------------------------------------------------------------------
+# C16 #1 / C05 #9: pandas.read_csv(usecols=..., names=...) column/field agreement
+
+READ_CSV_SITES = (
+    'cooler.util.read_chromsizes', 'cooler.cli._util.parse_bins', 'cooler.cli.balance.balance',
+    'cooler.cli.load.load', 'cooler.cli.cload.pairs',
+)
+
+
+def read_csv_names(ctx):
+    """pandas assigns ``names`` to the selected columns in *file order* and
+    ignores the order of ``usecols``: the name list must therefore be ordered by
+    column number (ascending literals, or sorted by the field-number table)."""
+    R = 'CSV.names-follow-column-numbers'
+    n = 0
+    for q in READ_CSV_SITES:
+        fa = ctx.fa(q)
+        for e in calls(fa, 'pd.read_csv'):
+            use = T.get_kw(e.term, 'usecols')
+            names = T.get_kw(e.term, 'names')
+            if use is None or names is None:
+                continue
+            n += 1
+            inst = q.split('.')[-1] + f'#{n}'
+            w = ctx.where(fa, e)
+            if use[0] == 'list' and all(T.is_int_const(x) for x in use[1]):
+                vals = [x[1] for x in use[1]]
+                ok = vals == sorted(vals) and names[0] == 'list' and len(names[1]) == len(vals)
+                ctx.check(ok, R, inst, w, found=f'usecols={T.show(use)} names={T.show(names)}',
+                          expected='ascending literal column numbers with one name each')
+                continue
+            # computed: usecols = [numbers[name] for name in NAMES] with NAMES == names and
+            # NAMES sorted by numbers.get
+            ok = False
+            why = ''
+            if use[0] == 'comp' and use[1] == 'list' and len(use[3]) == 1 and not use[3][0][3]:
+                g = use[3][0]
+                src = g[2]
+                elt = use[2]
+                tbl = elt[1] if elt[0] == 'sub' and elt[2] == g[1] else None
+                if tbl is None:
+                    why = 'usecols is not numbers[name] for name in names'
+                elif src != names:
+                    why = 'usecols and names iterate over different lists'
+                else:
+                    # names must be sorted(<list>, key=<tbl>.get)
+                    key = T.get_kw(names, 'key') if names[0] == 'call' and names[1] == G('sorted') else None
+                    if key == T.attr(tbl, 'get') or (key is not None and key[0] == 'lam' and T.contains(key, tbl)):
+                        ok = True
+                    else:
+                        why = 'names are not ordered by their column numbers'
+            else:
+                why = 'unrecognised usecols expression'
+            ctx.check(ok, R, inst, w, found=f'usecols={T.show(use)[:200]} names={T.show(names)[:200]} ({why})' if not ok else 'names sorted by field number',
+                      expected='names = sorted(names, key=numbers.get); usecols = [numbers[n] for n in names]',
+                      reason='with a non-monotone column layout (e.g. -c1 3 -p1 4 -c2 1 -p2 2) the columns would be handed to the wrong fields',
+                      key=f'{R}|{q}|names-not-sorted-by-number')
+    if n < 5:
+        ctx.unrec(R, 'sites', found=n, reason='expected the five read_csv(usecols, names) sites confirmed by reading')
